@@ -542,14 +542,20 @@ func (x *skx) execStmt(st ast.Stmt, s *skState) []*skState {
 						continue
 					}
 					if c, ok := st.Rhs[i].(*ast.CallExpr); ok {
-						if sel, ok := c.Fun.(*ast.SelectorExpr); ok && sel.Sel.Name == "File" {
+						if sel, ok := c.Fun.(*ast.SelectorExpr); ok && (sel.Sel.Name == "File" || sel.Sel.Name == "Files") {
 							if l := x.lockOf(sel.X, t); l != "" {
-								t.top().taint[id.Name] = l
+								// File(k): a per-key list of store l; Files(): the store's live map of them
+								if sel.Sel.Name == "Files" {
+									t.top().taint["map:"+id.Name] = l
+								} else {
+									t.top().taint[id.Name] = l
+								}
 								continue
 							}
 						}
 					}
 					delete(t.top().taint, id.Name)
+					delete(t.top().taint, "map:"+id.Name)
 				}
 			}
 		}
@@ -618,6 +624,15 @@ func (x *skx) execStmt(st ast.Stmt, s *skState) []*skState {
 		return each(sts, func(t *skState) []*skState {
 			return x.loop(t, func(p []*skState) []*skState {
 				for _, r := range p {
+					if mid, ok := st.X.(*ast.Ident); ok {
+						if l, ok := r.top().taint["map:"+mid.Name]; ok {
+							// iterating the store's live map of per-key lists: a read of store l, and its values are lists of l
+							r.evs = append(r.evs, "Rd "+l)
+							if id, ok := st.Value.(*ast.Ident); ok {
+								r.top().taint[id.Name] = l
+							}
+						}
+					}
 					if c, ok := st.X.(*ast.CallExpr); ok {
 						if sel, ok := c.Fun.(*ast.SelectorExpr); ok && sel.Sel.Name == "Files" {
 							if id, ok := st.Value.(*ast.Ident); ok {
